@@ -2,14 +2,17 @@
 # run every seeded change that a registered check is expected to catch (development helper)
 cd /verif
 python3 - <<'PY' > .work/seed_cmds.txt
-import json
+import json, os
 for e in json.load(open('/verif/seeded/plan.json')):
     if e.get("tier") == "thorough":
         continue
+    if os.environ.get("SEED_FILTER") and not e["id"].startswith(os.environ["SEED_FILTER"]):
+        continue
+    prop = e.get("check", e["property"])
     if e.get("e3"):
-        print(e["id"], e["property"], "--e3-only")
+        print(e["id"], prop, "--e3-only")
     elif e["only"]:
-        print(e["id"], e["property"], "--only " + e["only"])
+        print(e["id"], prop, "--only " + e["only"])
 PY
 while read id prop flag arg; do
   ./seed_test.sh $id $prop $flag $arg
